@@ -322,6 +322,18 @@ fn unpredict(decoded: Vec<u8>, params: &LZWFlateParams) -> Result<Vec<u8>> {
     // For this, take the old out as input, and write output to out
 
     if predictor >= 10 {
+        // a PNG row holds columns * colours samples of bits_per_component bits, padded to a whole
+        // byte; the "pixel to the left" of the Sub, Average and Paeth filters is one whole pixel
+        // away, at least one byte (PNG specification, 9.2)
+        let bits = match params.bits_per_component {
+            b @ (1 | 2 | 4 | 8 | 16) => b as usize,
+            b => bail!("invalid predictor geometry: {} bits per component", b)
+        };
+        let stride = match stride.checked_mul(bits) {
+            Some(row_bits) => row_bits / 8 + (row_bits % 8 != 0) as usize,
+            None => bail!("invalid predictor geometry: {} columns, {} components, {} bits", columns, n_components, bits)
+        };
+        let bpp = (n_components.saturating_mul(bits) / 8).max(1);
         let inp = decoded; // input buffer
         if stride >= inp.len() {
             // not even one row: nothing to un-predict (and no row-sized buffers to allocate)
@@ -351,7 +363,7 @@ fn unpredict(decoded: Vec<u8>, params: &LZWFlateParams) -> Result<Vec<u8>> {
                 let (prev, curr) = out.split_at_mut(out_off);
                 (&prev[last_out_off ..], &mut curr[.. stride])
             };
-            unfilter(predictor, n_components, prev_row, row_in, row_out);
+            unfilter(predictor, bpp, prev_row, row_in, row_out);
             
             last_out_off = out_off;
             
